@@ -40,6 +40,12 @@
 (*   SpbPerSerial    TmpStore keeps one savepoint blob file per            *)
 (*                   (oid, serial): a rollback does not bring the file of  *)
 (*                   the earlier savepoint back (F3)                       *)
+(*   ForeignAbortCleans  BlobStorage.tpc_abort(t) runs _blob_tpc_abort()     *)
+(*                   although the wrapped storage ignored the foreign t      *)
+(*   LateBookkeeping BlobStorage.tpc_abort / tpc_finish touch dirty_oids     *)
+(*                   after the wrapped storage released the commit lock      *)
+(*   CopyFailUntracked BlobStorage.undo lists the copy in dirty_oids only    *)
+(*                   after the copy succeeded                                *)
 (***************************************************************************)
 EXTENDS ZPackOps
 
@@ -50,7 +56,8 @@ CONSTANTS Flavour,          \* "mixin" | "wrapmap" | "wrapfile"
           MaxTid,           \* tids are clock seconds 1..MaxTid (1, 2 = set-up)
           MaxSp,            \* bound on valid savepoints
           KeepOld,          \* FileStorage(pack_keep_old=...)
-          AbortNeedsVote, NonUndoPack, SpbPerSerial
+          AbortNeedsVote, NonUndoPack, SpbPerSerial,
+          ForeignAbortCleans, LateBookkeeping, CopyFailUntracked
 
 VARIABLES hist,     \* committed history (ZHistory)
           files,    \* <<oid, tid>> |-> [c, w, ro] : the *.blob files of the blob directory
@@ -63,14 +70,16 @@ VARIABLES hist,     \* committed history (ZHistory)
           con,      \* connection c1: snapshot, registered objects, working files, savepoints
           nextb,    \* next unused blob oid
           aborted,  \* ghost: tids of aborted transactions
+          aux,      \* [late, ltid]: bookkeeping of the second writer's abort / finish still to come (its thread stopped
+                    \* between the two statements of BlobStorage.tpc_abort / tpc_finish); lost: ghost, why a file went
           res,      \* outcome of the last call
           osnap,    \* derived from (hist, files, packed): the bytes every snapshot reader must see
           oiter,    \* derived from hist: what the storage's iterator must list
           oview,    \* derived from (con, hist, files): the bytes c1 shows for the blobs it touched
           viol      \* derived: violations of C13 exhibited by this state
 
-vars == <<hist, files, old, dirty, leak, clk, packed, txn, con, nextb, aborted, res, osnap, oiter, oview, viol>>
-View == <<hist, files, old, dirty, leak, clk, packed, txn, con, nextb, aborted>>
+vars == <<hist, files, old, dirty, leak, clk, packed, txn, con, nextb, aborted, aux, res, osnap, oiter, oview, viol>>
+View == <<hist, files, old, dirty, leak, clk, packed, txn, con, nextb, aborted, aux>>
 
 P == 1
 Blobs == 2..(NBlob + 1)
@@ -97,6 +106,8 @@ AddReg(s, o) == IF o \in Range(s) THEN s ELSE Append(s, o)
 OK(what) == [call |-> what, out |-> "ok"]
 Out(what, o) == [call |-> what, out |-> o]
 
+NoAux == [late |-> "none", ltid |-> 0, lost |-> <<>>]
+IsWrapper == Flavour # "mixin"
 NoTxn == [who |-> "none", tid |-> 0, phase |-> "idle", staged |-> <<>>, target |-> 0]
 Idle == txn.who = "none"
 
@@ -163,13 +174,17 @@ BlobRevsOf(H) == {r \in {<<b, H[i].tid>> : b \in Blobs, i \in 1..Len(H)} :
                      LET i == TidPos(H, r[2]) IN Writes(H, i, r[1]) /\ DataAt(H, i, r[1]) # Gone}
 CommittedIn(H, k) == LET i == TidPos(H, k[2]) IN i # 0 /\ Writes(H, i, k[1])
 Committed(k) == CommittedIn(hist, k)
-InFlightIn(tx, k) == tx.who # "none" /\ k[2] = tx.tid
-InFlight(k) == InFlightIn(txn, k)
+InFlightIn(tx, ax, k) == (tx.who # "none" /\ k[2] = tx.tid) \/ (ax.late # "none" /\ k[2] = ax.ltid)
+InFlight(k) == InFlightIn(txn, aux, k)
 V(kind) == [inv |-> "FilesMatchRecords", kind |-> kind]
-ViolOf(H, F, tx, ab) ==
-     {V("revision-without-file") : k \in BlobRevsOf(H) \ DOMAIN F}
-  \cup {V("file-of-aborted-transaction") : k \in {k \in DOMAIN F : ~CommittedIn(H, k) /\ ~InFlightIn(tx, k) /\ k[2] \in ab}}
-  \cup {V("file-of-removed-revision") : k \in {k \in DOMAIN F : ~CommittedIn(H, k) /\ ~InFlightIn(tx, k) /\ k[2] \notin ab}}
+\* (the ghosts aux.lost / file.g say through which deviation a file went or stayed, so that every defect has
+\*  its own kind)
+ViolOf(H, F, tx, ab, ax) ==
+     {V(IF k \in DOMAIN ax.lost THEN "file-removed-by-" \o ax.lost[k] ELSE "revision-without-file") :
+         k \in BlobRevsOf(H) \ DOMAIN F}
+  \cup {V(IF F[k].g # "" THEN "file-left-by-" \o F[k].g ELSE "file-of-aborted-transaction") :
+         k \in {k \in DOMAIN F : ~CommittedIn(H, k) /\ ~InFlightIn(tx, ax, k) /\ k[2] \in ab}}
+  \cup {V("file-of-removed-revision") : k \in {k \in DOMAIN F : ~CommittedIn(H, k) /\ ~InFlightIn(tx, ax, k) /\ k[2] \notin ab}}
   \cup {V("bytes-differ-from-written") : k \in {k \in DOMAIN F : CommittedIn(H, k) /\ F[k].c # F[k].w}}
   \* (the property speaks of modification in place; the permission bits of the copies BlobStorage.undo writes
   \*  are compared by the replays but are no violation of it)
@@ -178,27 +193,30 @@ ViolOf(H, F, tx, ab) ==
 SnapExpr == SnapOf(hist, files, packed)
 ViewExpr == ViewOf(con, txn)
 IterExpr == IterOf(hist)
-ViolExpr == ViolOf(hist, files, txn, aborted)
+ViolExpr == ViolOf(hist, files, txn, aborted, aux)
 \* The derived variables are functions of the other variables; they are recomputed only by the actions that can
 \* change them, and incrementally where the history only grows (evaluating the tables for every successor
 \* state is what TLC would spend its time on otherwise).
 DerivedAll == /\ osnap' = SnapOf(hist', files', packed') /\ oiter' = IterOf(hist') /\ oview' = ViewOf(con', txn')
-              /\ viol' = ViolOf(hist', files', txn', aborted')
+              /\ viol' = ViolOf(hist', files', txn', aborted', aux')
 DerivedCon == osnap' = osnap /\ oiter' = oiter /\ oview' = ViewOf(con', txn') /\ viol' = viol
 DerivedEnd == /\ osnap' = osnap /\ oiter' = oiter /\ oview' = ViewOf(con', txn')
-              /\ viol' = ViolOf(hist', files', txn', aborted')
+              /\ viol' = ViolOf(hist', files', txn', aborted', aux')
+\* (an abort that goes by a dirty list holding entries of another transaction can remove a committed file)
+DerivedDrop == /\ osnap' = SnapOf(hist', files', packed') /\ oiter' = oiter /\ oview' = ViewOf(con', txn')
+               /\ viol' = ViolOf(hist', files', txn', aborted', aux')
 DerivedCommit == /\ osnap' = Put(osnap, hist'[Len(hist')].tid,
                                   RowAfter(osnap[MaxS(DOMAIN osnap)], hist'[Len(hist')], hist', files'))
                  /\ oiter' = Append(oiter, IterEntry(hist', Len(hist')))
-                 /\ oview' = ViewOf(con', txn') /\ viol' = ViolOf(hist', files', txn', aborted')
+                 /\ oview' = ViewOf(con', txn') /\ viol' = ViolOf(hist', files', txn', aborted', aux')
 
 Init ==
   /\ hist = <<Txn(1, <<DataRec(0, RootD({}))>>), Txn(2, <<DataRec(0, RootD({P})), DataRec(P, PlainD("v1"))>>)>>
   /\ files = <<>> /\ old = <<>> /\ dirty = {} /\ leak = <<>> /\ clk = 2 /\ packed = <<0, 0>>
-  /\ txn = NoTxn /\ con = FreshCon(hist, files, 2) /\ nextb = 2 /\ aborted = {} /\ res = OK("open")
+  /\ txn = NoTxn /\ con = FreshCon(hist, files, 2) /\ nextb = 2 /\ aborted = {} /\ aux = NoAux /\ res = OK("open")
   /\ osnap = SnapExpr /\ oiter = IterExpr /\ oview = ViewExpr /\ viol = ViolExpr
 
-SameStore == UNCHANGED <<hist, files, old, dirty, leak, clk, packed, txn, aborted>>
+SameStore == UNCHANGED <<hist, files, old, dirty, leak, clk, packed, txn, aborted, aux>>
 
 (* ------------------------ Blob and object API --------------------------- *)
 \* root['b<n>'] = Blob(); content written through open('w')
@@ -302,7 +320,7 @@ TpcBegin ==
   /\ clk' = clk + 1
   /\ txn' = [who |-> "c1", tid |-> clk + 1, phase |-> "begun", staged |-> <<>>, target |-> 0]
   /\ res' = OK("tpc_begin")
-  /\ UNCHANGED <<hist, files, old, dirty, leak, packed, con, nextb, aborted>> /\ DerivedCon
+  /\ UNCHANGED <<hist, files, old, dirty, leak, packed, con, nextb, aborted, aux>> /\ DerivedCon
 
 \* Connection.commit: without savepoints the registered objects in registration order, an object that becomes
 \* reachable right after its referrer; with savepoints first one more flush, then every oid of the TmpStore
@@ -326,7 +344,7 @@ StoreOne(c, tid, o, st) ==
      ELSE IF o = P THEN [st EXCEPT !.staged = Append(@, DataRec(P, PlainD(c.pval[1])))]
      ELSE LET src == IF o \in DOMAIN c.work THEN c.work[o] ELSE c.spfile[o]
           IN [st EXCEPT !.staged = Append(@, DataRec(o, BlobD)),
-                        !.files = Put(@, <<o, tid>>, [c |-> src, w |-> IView(c, o), ro |-> TRUE]),
+                        !.files = Put(@, <<o, tid>>, [c |-> src, w |-> IView(c, o), ro |-> TRUE, g |-> ""]),
                         !.dirty = @ \cup {<<o, tid>>},
                         !.done = @ \cup {o}]
 
@@ -344,7 +362,7 @@ Store ==
         /\ txn' = [txn EXCEPT !.phase = IF st.fail THEN "failed" ELSE "stored", !.staged = st.staged]
         /\ con' = [c EXCEPT !.work = IF c.spon THEN <<>> ELSE Drop(@, st.done), !.spfile = <<>>, !.spon = FALSE]
         /\ res' = IF st.fail THEN Out("commit", "ConflictError") ELSE OK("commit")
-  /\ UNCHANGED <<hist, old, clk, packed, nextb, aborted>> /\ DerivedCon
+  /\ UNCHANGED <<hist, old, clk, packed, nextb, aborted, aux>> /\ DerivedCon
 StoreOK == Store /\ txn'.phase = "stored"
 StoreFail == Store /\ txn'.phase = "failed"
 
@@ -352,17 +370,20 @@ Vote ==
   /\ txn.who # "none" /\ txn.phase = "stored"
   /\ txn' = [txn EXCEPT !.phase = "voted"]
   /\ res' = OK("tpc_vote")
-  /\ UNCHANGED <<hist, files, old, dirty, leak, clk, packed, con, nextb, aborted>> /\ DerivedCon
+  /\ UNCHANGED <<hist, files, old, dirty, leak, clk, packed, con, nextb, aborted, aux>> /\ DerivedCon
 
+Forgotten(F, K) == [k \in DOMAIN F |-> IF k \in K THEN [F[k] EXCEPT !.g = "late-bookkeeping"] ELSE F[k]]
 \* tpc_finish: the transaction joins the history, the dirty list is forgotten
 Finish ==
   /\ txn.who # "none" /\ txn.phase = "voted"
   /\ hist' = Append(hist, Txn(txn.tid, txn.staged))
   /\ dirty' = {}
-  /\ con' = IF txn.who = "c1" THEN FreshCon(hist', files, txn.tid) ELSE con
+  \* (an entry of the second writer's abort that is still to come is forgotten with the list)
+  /\ files' = Forgotten(files, {k \in dirty : k[2] # txn.tid})
+  /\ con' = IF txn.who = "c1" THEN FreshCon(hist', files', txn.tid) ELSE con
   /\ txn' = NoTxn
   /\ res' = OK("tpc_finish")
-  /\ UNCHANGED <<files, old, leak, clk, packed, nextb, aborted>> /\ DerivedCommit
+  /\ UNCHANGED <<old, leak, clk, packed, nextb, aborted, aux>> /\ DerivedCommit
 
 \* Connection.abort (called on a resource that has not voted): working copies of registered blobs and the
 \* savepoint store go; TransactionalUndo.abort does nothing
@@ -371,7 +392,7 @@ ConnAbort ==
   /\ txn' = [txn EXCEPT !.phase = "caborted"]
   /\ con' = IF txn.who = "c1" THEN [con EXCEPT !.work = <<>>, !.spfile = <<>>, !.spon = FALSE] ELSE con
   /\ res' = OK("abort")
-  /\ UNCHANGED <<hist, files, old, dirty, leak, clk, packed, nextb, aborted>> /\ DerivedCon
+  /\ UNCHANGED <<hist, files, old, dirty, leak, clk, packed, nextb, aborted, aux>> /\ DerivedCon
 
 \* storage.tpc_abort: the files listed as dirty are removed - by FileStorage only if a vote happened (F4)
 TpcAbort ==
@@ -380,36 +401,90 @@ TpcAbort ==
      /\ files' = IF cleans THEN Drop(files, dirty) ELSE files
      /\ dirty' = IF cleans THEN {} ELSE dirty
   /\ aborted' = aborted \cup {txn.tid}
+  \* (ghost: a committed file of the second writer, still listed because its finish has not cleared the list yet)
+  /\ aux' = [aux EXCEPT !.lost = [k \in (DOMAIN @) \cup {k \in (DOMAIN files) \ (DOMAIN files') : Committed(k)} |->
+                                    IF k \in DOMAIN @ THEN @[k] ELSE "late-bookkeeping"]]
   /\ con' = IF txn.who = "c1" THEN FreshCon(hist, files', LastTid(hist)) ELSE con
   /\ txn' = NoTxn
   /\ res' = OK("tpc_abort")
-  /\ UNCHANGED <<hist, old, leak, clk, packed, nextb>> /\ DerivedEnd
+  /\ UNCHANGED <<hist, old, leak, clk, packed, nextb>> /\ DerivedDrop
 
 (* ------------------------------ second writer --------------------------- *)
 \* another connection changes P or rewrites a blob and commits (atomic for c1: the commit lock)
 OtherCommit(o, x) ==
-  /\ Idle /\ clk < MaxTid
+  /\ Idle /\ aux.late = "none" /\ clk < MaxTid
   /\ o \in {P} \cup Blobs
   /\ Load(hist, o).k = "rev"
   /\ IF o = P THEN x \in PVals /\ <<x>> # Load(hist, P).d.v ELSE x \in Atoms
   /\ LET t == clk + 1 IN
      /\ hist' = Append(hist, Txn(t, <<DataRec(o, IF o = P THEN PlainD(x) ELSE BlobD)>>))
-     /\ files' = IF o = P THEN files ELSE Put(files, <<o, t>>, [c |-> <<x>>, w |-> <<x>>, ro |-> TRUE])
+     /\ files' = IF o = P THEN files ELSE Put(files, <<o, t>>, [c |-> <<x>>, w |-> <<x>>, ro |-> TRUE, g |-> ""])
      /\ clk' = t
   /\ dirty' = {}
   /\ res' = OK("other")
-  /\ UNCHANGED <<old, leak, packed, txn, con, nextb, aborted>> /\ DerivedCommit
+  /\ UNCHANGED <<old, leak, packed, txn, con, nextb, aborted, aux>> /\ DerivedCommit
+
+\* The second writer's commit of a rewritten blob, up to the point where the wrapped storage has aborted /
+\* finished it and released the commit lock.  BlobStorage does its own bookkeeping only afterwards (Late): until
+\* then the file and the dirty_oids entry of that transaction are still there and any other transaction may run.
+\* OtherAbort: begin, storeBlob, the vote of another participant fails, tpc_abort.  OtherFinish: ..., tpc_finish.
+OtherTpc(b, x, end) ==
+  /\ Idle /\ IsWrapper /\ aux.late = "none" /\ clk < MaxTid
+  /\ b \in Blobs /\ x \in Atoms /\ Load(hist, b).k = "rev"
+  /\ LET t == clk + 1
+         f == Put(files, <<b, t>>, [c |-> <<x>>, w |-> <<x>>, ro |-> TRUE, g |-> ""])
+     IN /\ clk' = t
+        /\ hist' = IF end = "finish" THEN Append(hist, Txn(t, <<DataRec(b, BlobD)>>)) ELSE hist
+        /\ aborted' = IF end = "abort" THEN aborted \cup {t} ELSE aborted
+        /\ IF LateBookkeeping
+           THEN files' = f /\ dirty' = dirty \cup {<<b, t>>} /\ aux' = [aux EXCEPT !.late = end, !.ltid = t]
+           ELSE /\ files' = IF end = "abort" THEN Drop(files, dirty) ELSE f
+                /\ dirty' = {} /\ aux' = aux
+  /\ res' = OK("other-" \o end)
+  /\ UNCHANGED <<old, leak, packed, txn, con, nextb>>
+OtherAbort(b, x) == OtherTpc(b, x, "abort") /\ DerivedEnd
+OtherFinish(b, x) == OtherTpc(b, x, "finish") /\ DerivedCommit
+
+\* the stopped thread goes on: _blob_tpc_abort() removes whatever dirty_oids lists NOW, _blob_tpc_finish() forgets
+\* whatever it lists now - entries of the transaction that is in two-phase commit meanwhile included
+Late ==
+  /\ aux.late # "none"
+  /\ LET others == {k \in dirty : k[2] # aux.ltid} IN
+     IF aux.late = "abort"
+     THEN /\ files' = Drop(files, dirty)
+          /\ aux' = [late |-> "none", ltid |-> 0,
+                      lost |-> [k \in (DOMAIN aux.lost) \cup (others \cap DOMAIN files) |->
+                                  IF k \in DOMAIN aux.lost THEN aux.lost[k] ELSE "late-bookkeeping"]]
+     ELSE /\ files' = Forgotten(files, others)
+          /\ aux' = [aux EXCEPT !.late = "none", !.ltid = 0]
+  /\ dirty' = {}
+  /\ res' = OK("late")
+  /\ UNCHANGED <<hist, old, leak, clk, packed, txn, con, nextb, aborted>> /\ DerivedDrop
+
+\* A 2PC call on the storage with a transaction that is not the one being committed, at any phase of the commit in
+\* progress: rejected (StorageTransactionError; tpc_abort returns silently) without effect - except that the
+\* wrapper's tpc_abort runs _blob_tpc_abort() all the same
+WrongCalls == {"store", "storeBlob", "tpc_vote", "tpc_finish", "tpc_abort"}
+Wrong(m) ==
+  /\ m \in WrongCalls /\ txn.who # "none" /\ txn.phase \in {"begun", "stored", "voted"}
+  /\ IF m = "tpc_abort" /\ IsWrapper /\ ForeignAbortCleans
+     THEN /\ files' = Drop(files, dirty) /\ dirty' = {}
+          /\ aux' = [aux EXCEPT !.lost = [k \in (DOMAIN @) \cup (dirty \cap DOMAIN files) |->
+                                            IF k \in DOMAIN @ THEN @[k] ELSE "foreign-abort"]]
+     ELSE UNCHANGED <<files, dirty, aux>>
+  /\ res' = Out("wrong-" \o m, IF m = "tpc_abort" THEN "ok" ELSE "StorageTransactionError")
+  /\ UNCHANGED <<hist, old, leak, clk, packed, txn, con, nextb, aborted>> /\ DerivedDrop
 
 (* ---------------------------------- undo -------------------------------- *)
 \* DB.undo(id) in a transaction of its own (TransactionalUndo): FileStorage._txn_undo_write /
 \* _transactionalUndoRecord with nothing else staged; one record per oid per transaction in this model
 UBegin(t) ==
-  /\ Idle /\ HasUndo /\ clk < MaxTid
+  /\ Idle /\ aux.late = "none" /\ HasUndo /\ clk < MaxTid
   /\ t \in TidsOf(hist) /\ t > 2 /\ hist[TidPos(hist, t)].status = " "
   /\ clk' = clk + 1
   /\ txn' = [who |-> "undo", tid |-> clk + 1, phase |-> "begun", staged |-> <<>>, target |-> t]
   /\ res' = OK("tpc_begin")
-  /\ UNCHANGED <<hist, files, old, dirty, leak, packed, con, nextb, aborted>> /\ DerivedCon
+  /\ UNCHANGED <<hist, files, old, dirty, leak, packed, con, nextb, aborted, aux>> /\ DerivedCon
 
 \* tid of the record that physically holds the data reached from o's record in transaction i (_loadBackTxn)
 RECURSIVE HolderTid(_, _, _)
@@ -477,15 +552,45 @@ UStore ==
         IN /\ \A o \in copies : src[o] \in DOMAIN files
            /\ files' = [k \in (DOMAIN files) \cup {<<o, txn.tid>> : o \in copies} |->
                           IF k[2] = txn.tid /\ k[1] \in copies
-                          THEN [c |-> files[src[k[1]]].c, w |-> files[src[k[1]]].w, ro |-> IsMixin]
+                          THEN [c |-> files[src[k[1]]].c, w |-> files[src[k[1]]].w, ro |-> IsMixin, g |-> ""]
                           ELSE files[k]]
            /\ dirty' = dirty \cup {<<o, txn.tid>> : o \in copies}
            /\ txn' = [txn EXCEPT !.phase = IF fails = {} /\ ~bfail THEN "stored" ELSE "failed", !.staged = UndoRecs(hist, i, 1)]
            /\ res' = IF fails # {} THEN Out("commit", "UndoError")
                      ELSE IF bfail THEN Out("commit", "KeyError") ELSE OK("commit")
-  /\ UNCHANGED <<hist, old, leak, clk, packed, con, nextb, aborted>> /\ DerivedCon
+  /\ UNCHANGED <<hist, old, leak, clk, packed, con, nextb, aborted, aux>> /\ DerivedCon
 UStoreOK == UStore /\ txn'.phase = "stored"
 UStoreFail == UStore /\ txn'.phase = "failed"
+
+\* One write of the blob copy inside undo() fails (I/O error): undo() raises.  Wrapper: the file it was writing,
+\* <oid>/<undo tid>.blob, is there (empty when the first write failed) and - as the code is - not yet listed in
+\* dirty_oids.  Mixin: the copy goes to a temporary file under tmp/ first, which stays (not judged).  The copy that
+\* fails is the first one the call makes.
+UCopies == IF IsMixin
+           THEN LET i == TidPos(hist, txn.target) IN
+                {o \in Blobs : Writes(hist, i, o) /\ UndoKind(hist, i, o) = "back" /\ HolderTid(hist, PrevPos(hist, i, o), o) # 0}
+           ELSE WCopies(txn.target)
+UFirstSrc == IF IsMixin
+             THEN LET i == TidPos(hist, txn.target)
+                      j == MinS({j \in 1..Len(hist[i].recs) : hist[i].recs[j].oid \in UCopies})
+                      o == hist[i].recs[j].oid
+                  IN <<o, HolderTid(hist, PrevPos(hist, i, o), o)>>
+             ELSE WSrc(MinS(UCopies), txn.target)
+UStoreCopyFail ==
+  /\ txn.who = "undo" /\ txn.phase = "begun"
+  /\ LET i == TidPos(hist, txn.target)
+         oids == {hist[i].recs[j].oid : j \in 1..Len(hist[i].recs)}
+     IN (IsMixin \/ \A o \in oids : UndoKind(hist, i, o) # "fail") /\ UCopies # {}
+  /\ \E src \in {UFirstSrc} :
+       /\ src \in DOMAIN files /\ files[src].c # <<>>
+       /\ IF IsMixin
+          THEN leak' = Append(leak, <<>>) /\ UNCHANGED <<files, dirty>>
+          ELSE /\ files' = Put(files, <<src[1], txn.tid>>, [c |-> <<>>, w |-> <<>>, ro |-> FALSE, g |-> "failed-undo-copy"])
+               /\ dirty' = IF CopyFailUntracked THEN dirty ELSE dirty \cup {<<src[1], txn.tid>>}
+               /\ leak' = leak
+  /\ txn' = [txn EXCEPT !.phase = "failed"]
+  /\ res' = Out("commit", "OSError")
+  /\ UNCHANGED <<hist, old, clk, packed, con, nextb, aborted, aux>> /\ DerivedCon
 
 (* ---------------------------------- pack -------------------------------- *)
 (***************************************************************************)
@@ -602,7 +707,7 @@ LoadableOnly(F, H2) == [k \in {k \in DOMAIN F : k \in BlobRevsOf(H2)} |-> F[k]]
 
 \* (\E x \in {e} makes TLC evaluate e once; a LET definition is re-evaluated at every use in an action)
 Pack(T) ==
-  /\ HasPack /\ Idle /\ IsClean(con) /\ T \in 1..clk
+  /\ HasPack /\ Idle /\ aux.late = "none" /\ IsClean(con) /\ T \in 1..clk
   /\ \E r \in {IF IsMixin THEN LeanFilePack(hist, T) ELSE MappingPack(hist, T, TRUE, packed[2])} :
      LET done == r.out = "ok" IN
      \E h2 \in {IF done THEN Solid(r.h) ELSE hist} :
@@ -616,7 +721,7 @@ Pack(T) ==
         /\ packed' = <<IF done /\ T > packed[1] THEN T ELSE packed[1], IF ~IsMixin /\ done THEN T ELSE packed[2]>>
         /\ res' = Out("pack", r.out)
         /\ con' = FreshCon(h2, nf, LastTid(h2))
-  /\ UNCHANGED <<dirty, leak, clk, txn, nextb, aborted>> /\ DerivedAll
+  /\ UNCHANGED <<dirty, leak, clk, txn, nextb, aborted, aux>> /\ DerivedAll
 
 (* ---------------------------------- next -------------------------------- *)
 Contents1 == {<<>>} \cup {<<x>> : x \in Atoms}
@@ -633,8 +738,12 @@ Next ==
   \/ TpcBegin \/ StoreOK \/ StoreFail \/ Vote \/ Finish \/ ConnAbort \/ TpcAbort
   \/ \E o \in 1..(NBlob + 1), x \in Atoms \cup PVals : OtherCommit(o, x)
   \/ \E t \in 3..MaxTid : UBegin(t)
-  \/ UStoreOK \/ UStoreFail
+  \/ UStoreOK \/ UStoreFail \/ UStoreCopyFail
   \/ \E T \in 1..MaxTid : Pack(T)
+  \/ \E m \in WrongCalls : Wrong(m)
+  \/ \E b \in Blobs, x \in Atoms : OtherAbort(b, x)
+  \/ \E b \in Blobs, x \in Atoms : OtherFinish(b, x)
+  \/ Late
 
 (* Sub-relations that direct simulation and bound model checking (a uniform walk spends its depth on Blob API
    calls).  Every disjunct stays a named action with constant-range arguments so that TLC labels the steps; a
@@ -664,7 +773,16 @@ TpcAbortQ == txn.phase = "caborted" /\ TpcAbort
 Other == \E o \in 1..(NBlob + 1), x \in Atoms \cup PVals : OtherCommit(o, x)
 OtherCommitQ(o, x) == Pending /\ OtherCommit(o, x)      \* a second writer that races with c1
 OtherQ == \E o \in 1..(NBlob + 1), x \in Atoms \cup PVals : OtherCommitQ(o, x)
-UndoAll == (\E t \in 3..MaxTid : UBegin(t)) \/ UStoreOK \/ UStoreFail
+UndoAll == (\E t \in 3..MaxTid : UBegin(t)) \/ UStoreOK \/ UStoreFail \/ UStoreCopyFail
+\* a foreign call right after a phase of the commit in progress (one per phase)
+WrongQ(m) == res.call \in {"tpc_begin", "commit", "tpc_vote"} /\ Wrong(m)
+WrongSome == \E m \in WrongCalls : WrongQ(m)
+\* the second writer's abort / finish that does its bookkeeping late, racing with a change of c1
+OtherAbortQ(b, x) == Pending /\ OtherAbort(b, x)
+OtherFinishQ(b, x) == Pending /\ OtherFinish(b, x)
+\* (right after a store that failed there is no callback of the commit from which the replay could let the thread go)
+LateQ == txn.phase # "failed" /\ Late
+Race == (\E b \in Blobs, x \in Atoms : OtherAbortQ(b, x)) \/ (\E b \in Blobs, x \in Atoms : OtherFinishQ(b, x)) \/ LateQ
 PackAny == \E T \in 1..MaxTid : Pack(T)
 \* the packer transcription is costly to evaluate: in simulation a pack is tried right after a commit only,
 \* at the tid boundaries not yet packed away
@@ -680,9 +798,9 @@ AbortTxnQ == (con.spon \/ Len(con.reg) + Cardinality(con.newb) >= 2) /\ res.call
 ConnAbortR == (txn.phase = "failed" \/ txn.tid % 2 = 0) /\ ConnAbort
 TpcAbortR == (txn.phase = "caborted" \/ txn.tid % 2 = 0) /\ TpcAbort
 
-NextCommit == EditQ \/ Tpc \/ ConnAbortQ \/ TpcAbortQ \/ OtherQ
-NextAbort  == EditQ \/ Tpc \/ ConnAbortR \/ TpcAbortR \/ AbortTxnQ \/ OtherQ
-NextUndo   == EditQ \/ Tpc \/ ConnAbortR \/ TpcAbortR \/ OtherQ \/ UndoAll
+NextCommit == EditQ \/ Tpc \/ ConnAbortQ \/ TpcAbortQ \/ OtherQ \/ Race
+NextAbort  == EditQ \/ Tpc \/ ConnAbortR \/ TpcAbortR \/ AbortTxnQ \/ OtherQ \/ WrongSome \/ Race
+NextUndo   == EditQ \/ Tpc \/ ConnAbortR \/ TpcAbortR \/ OtherQ \/ UndoAll \/ WrongSome
 NextPack   == EditQ \/ Tpc \/ ConnAbortQ \/ TpcAbortQ \/ OtherQ \/ UndoAll \/ PackSome
 NextSp     == EditQ \/ Tpc \/ ConnAbortR \/ TpcAbortR \/ AbortTxnQ \/ OtherQ \/ SpQ
 
@@ -722,5 +840,5 @@ PackRemovesExactly ==
        /\ \A k \in BlobRevsOf(hist) \ BlobRevsOf(hist') : k \notin DOMAIN files'
        /\ (KeepOld /\ res'.out = "ok") => old' = files]_vars
 \* after the end of a transaction nothing of it is left outside the history
-NothingLeftBehind == Idle => (dirty = {} /\ (IsClean(con) => DOMAIN con.spfile = {}))
+NothingLeftBehind == (Idle /\ aux.late = "none") => (dirty = {} /\ (IsClean(con) => DOMAIN con.spfile = {}))
 =============================================================================
